@@ -523,7 +523,10 @@ theorem inv_resumeR (cfg : Cfg) (s : St) (h : Inv s) : Inv (resumeR cfg s) := by
           · simp [hp', Pc.isDone]
           · rfl
           · intro hm; have := p5 hm; simp_all
-        · rename_i hp; exact inv_afterConnect cfg _ h' hp
+        · rename_i hp
+          split
+          · exact Inv.of_core rfl h'
+          · exact inv_afterConnect cfg _ (Inv.of_core rfl h') hp
         · rename_i hp
           have ha : activePc ({ s with wake := none } : St).pc := Or.inl hp
           have := inv_afterHeaders cfg _ h' ha
@@ -698,6 +701,10 @@ theorem inv_applyEv (cfg : Cfg) (s : St) (ev : Ev) (h : Inv s) : Inv (applyEv cf
       simp only [applyEv]; splits
     exact Inv.of_core this h
   | connDone i =>
+    simp only [applyEv]; split
+    · exact Inv.of_core rfl h
+    · exact h
+  | tlsDone i =>
     simp only [applyEv]; split
     · exact Inv.of_core rfl h
     · exact h
